@@ -37,14 +37,14 @@ func rec(s, d string, dport uint16, proto uint8, c types.Counters) fixture.Rec {
 
 var (
 	r4a = rec("10.0.0.1", "10.0.0.2", 80, 6, cnt(100, 200, 1, 2))
-	r4b = rec("10.0.0.1", "10.0.0.2", 443, 6, cnt(10, 0, 1, 0))        // inbound only
-	r4c = rec("10.0.0.2", "10.0.0.1", 53, 17, cnt(0, 50, 0, 5))        // outbound only
-	r4d = rec("192.168.1.1", "10.128.0.1", 0, 1, cnt(7, 7, 7, 7))      // icmp
-	r4e = rec("10.128.0.1", "10.0.0.2", 80, 17, cnt(1<<33, 3, 4, 5))   // large counter, same dport other proto
+	r4b = rec("10.0.0.1", "10.0.0.2", 443, 6, cnt(10, 0, 1, 0))      // inbound only
+	r4c = rec("10.0.0.2", "10.0.0.1", 53, 17, cnt(0, 50, 0, 5))      // outbound only
+	r4d = rec("192.168.1.1", "10.128.0.1", 0, 1, cnt(7, 7, 7, 7))    // icmp
+	r4e = rec("10.128.0.1", "10.0.0.2", 80, 17, cnt(1<<33, 3, 4, 5)) // large counter, same dport other proto
 	r6a = rec("2001:db8::1", "2001:db8::2", 80, 6, cnt(1000, 2000, 10, 20))
-	r6b = rec("a00:1::5", "2001:db8::2", 80, 6, cnt(5, 6, 7, 8))       // leading bytes equal 10.0.0.1
-	r6c = rec("fe80::1", "ff02::1", 0, 58, cnt(64, 0, 1, 0))           // inbound only
-	r6d = rec("2001:db8::2", "2001:db8::1", 443, 6, cnt(0, 9, 0, 1))   // outbound only
+	r6b = rec("a00:1::5", "2001:db8::2", 80, 6, cnt(5, 6, 7, 8))        // leading bytes equal 10.0.0.1
+	r6c = rec("fe80::1", "ff02::1", 0, 58, cnt(64, 0, 1, 0))            // inbound only
+	r6d = rec("2001:db8::2", "2001:db8::1", 443, 6, cnt(0, 9, 0, 1))    // outbound only
 	r6z = rec("2001:db8::", "2001:db8::2", 443, 6, cnt(11, 12, 13, 14)) // 12 trailing zero bytes
 )
 
@@ -266,7 +266,7 @@ var _ = fmt.Sprint
 func init() {
 	register("C08", &explore.Scenario{
 		ID: "C08", Name: "query engine vs reference aggregation", Level: "exploration",
-		Rule: "cases = 4 database shapes (v4-only, v6-only, mixed incl. a v6 address aliasing 10.0.0.1, mixed + v6 address with 12 trailing zero bytes; 2 interfaces, 3 days incl. month change, 5 write-outs) x 20 query types (all 15 attribute subsets + 5 named types); per case deviations: time label, interface argument (4), condition (22 hand-written text/predicate pairs: leaves, !=, nets, and/or/not, v4|v6, ip|non-ip), direction filter (5), time range (quick: 40 of the 120 pairs over 15 boundary points; thorough: all), low-memory; all combinations of <= bound deviating dimensions. Oracle: reference aggregation in a Go map (rows, Totals, Hits.Total). non-trivial = non-empty result under a condition, direction filter or restricted range, distinct by full query tuple",
+		Rule:  "cases = 4 database shapes (v4-only, v6-only, mixed incl. a v6 address aliasing 10.0.0.1, mixed + v6 address with 12 trailing zero bytes; 2 interfaces, 3 days incl. month change, 5 write-outs) x 20 query types (all 15 attribute subsets + 5 named types); per case deviations: time label, interface argument (4), condition (22 hand-written text/predicate pairs: leaves, !=, nets, and/or/not, v4|v6, ip|non-ip), direction filter (5), time range (quick: 40 of the 120 pairs over 15 boundary points; thorough: all), low-memory; all combinations of <= bound deviating dimensions. Oracle: reference aggregation in a Go map (rows, Totals, Hits.Total). non-trivial = non-empty result under a condition, direction filter or restricted range, distinct by full query tuple",
 		Cases: func(t string) int { n, _ := c08QueryTypes(); return len(c08Shapes()) * len(n) },
 		Bound: func(t string) int {
 			if t == "thorough" {
